@@ -9,22 +9,26 @@ SPEC = dict(
                 "crash) and reopened again. Enumeration is exhaustive per history; the histories themselves are sampled "
                 "(generated), so the level is fault enumeration, not proof."),
     level_note=("Trusts the tracer (cross-checked after every traced session: the simulated directory image must equal the "
-                "real directory byte for byte), the reference map, the fixed fake wall clock and the process-crash model "
+                "real directory byte for byte), the reference (per-key belief sets), the harness-owned wall clock and the process-crash model "
                 "stated by the property (data handed to the operating system survives; no reordering)."),
     technique="property-based histories x exhaustive crash-point enumeration with link-time FS interposition, ASan+UBSan",
     rule=("kv_crash: config (maxLogSizeBytes 48/128/512/1 MiB, inline compaction, cache 2/1000) x up to 12 operations (set, "
-          "set-TTL, batch +-TTL, remove, prefix-remove, clear, expire-at past/future, persist, compact, clean close/reopen) "
+          "set-TTL, batch +-TTL, remove, prefix-remove, clear, expire-at past/future, persist, compact, clean close/reopen, wall-clock advance 1 ms/999 ms/1 s/1 h) "
           "over 9 keys (binary, 40 B, 255 B) and values from empty to 9000 B, x every crash point (effect boundary and every "
           "byte of every write; writes beyond the 4 KiB per-history budget at boundaries +-8 B, iovec seams +-8 B and a "
           "stride), x a continuation of 1-3 operations ending in a clean close, a crash after the suffix or a crash at a "
-          "generated effect/byte of the continuation. json_crash: up to 10 set/remove/flush operations x every crash point x "
+          "generated effect/byte of the continuation; every reopen happens 0/1 ms/999 ms/1 s/1 h of wall-clock time after the crash and "
+          "per-key absolute expiry is evaluated at reopen time (a key whose final expiry has passed is admissibly absent, a key whose "
+          "expiry was cleared/extended by an operation that had returned must be present). "
+          "json_crash: up to 10 set/remove/flush operations x every crash point x "
           "continuation. Non-trivial = history with a crash point strictly inside a write, or between the snapshot rename and "
           "the log reset, or a continuation that appends after a torn log tail; distinct by hash of the history. Labels count "
           "histories, crash points and reopen runs."),
     assumptions=["process-crash model: bytes handed to write()/writev() and completed rename/open(O_TRUNC)/truncate calls "
                  "survive in order; bytes still in a C++ stream buffer are lost",
                  "a write() may be cut at any byte offset",
-                 "the wall clock is fixed during a case (expiry dynamics belong to C12)"],
+                 "the wall clock is harness-owned: it moves only by advance operations and by the generated crash-to-reopen gap "
+                 "(0/1 ms/999 ms/1 s/1 h); per-key absolute expiry is evaluated at reopen time, at expiry == now either answer is accepted"],
     units=[
         pbt("c11_crash", ["harness/c11_crash.cpp", "harness/c11_fstrace.cpp", "harness/c12_clock.cpp", "harness/c12_nofsync.cpp"], dict(
             kv_crash=P(5, 250, 16, 16, q_secs=50, t_secs=900),
